@@ -15,10 +15,11 @@ hinge columns, shift vectors, speed vectors and force fields.
 * `mulJT_adjoint`            `⟪F, J u⟫ = ⟪~J F, u⟫` body-wise pairing, no side condition at all
 * `mulJT_adjoint_flat`       the same with the flat generalized-force vector the C++ returns
 * `mulJ_eq_bodyVel`          `J u` is the velocity recursion of the kinematics when `V_PB_G = H u`
-* `frameJ_is_shift`, `stationJ_is_shift`, `frameJT_adjoint`, `stationJT_adjoint`
+* `stationJ_is_shift`, `frameJT_adjoint`, `stationJT_adjoint`
 * `bias_identity`, `frame_bias_identity`, `station_bias_identity`   `A(udot) = J udot + A(0)`
 * `tasks_are_rows`, `tasks_are_rows_transpose`
-* `calcJ_columns`, `calcFrameJ_entry`, `calcStationJ_entry`
+* `calcFrameJ_entry`, `calcStationJ_entry`   (`calcSysJ_col`, `mulFrameJ_def`, `calcFrameJ_def` in the lemma file only unfold definitions)
+* `sysJ_time_derivative`, `sysAcc_is_derivative`   tree level: the executed acceleration recursion is d/dt of the executed `J u`
 * `velStep_derivative`       d/dt of one step of the velocity recursion is one step of the acceleration
                              recursion with exactly the Coriolis term the C++ forms (first-order jets)
 -/
@@ -146,9 +147,6 @@ example : AllB (fun b => (fun _ => mulH b.H ([2] : List Int)) b.id = mulH b.H ((
   AllB.mk _ _ rfl (by simp)
 
 /-! ## 3. station / frame operators are the shift composed with `J`; their transposes are adjoint -/
-theorem frameJ_is_shift (ts : List (Tr K)) (tasks : List (Task K)) (u : List K) :
-    mulFrameJ ts tasks u = tasks.map (fun t => phiT t.r (lookup t.body (sysJ ts u))) := rfl
-
 /-- station velocity `= v_B + ω_B × r` of `J u` -/
 theorem stationJ_is_shift (ts : List (Tr K)) (tasks : List (Task K)) (u : List K) :
     mulStationJ ts tasks u =
@@ -342,11 +340,6 @@ theorem tasks_are_rows_transpose (ts : List (Tr K)) (n : Nat) (hfit : Fitss n ts
   simp [mulFrameJ, pairS]
 
 /-! ## 6. explicit matrices -/
-/-- `calcSystemJacobian`: column `j` is the operator applied to the unit vector `e_j` -/
-theorem calcJ_columns (ts : List (Tr K)) (n j : Nat) (hj : j < n) :
-    (calcSysJ ts n)[j]? = some (sysJ ts (unitL n j)) := by
-  simp [calcSysJ, hj]
-
 theorem dot_unit (V : SV K) (i : Nat) : SV.dot (SV.unit i) V = (SV.toList V).getD i 0 := by
   match i with
   | 0 | 1 | 2 | 3 | 4 | 5 => simp [SV.unit, V3.unit, SV.dot, V3.dot, V3.zero, SV.toList]
@@ -366,11 +359,6 @@ theorem calcFrameJ_entry (ts : List (Tr K)) (n : Nat) (hfit : Fitss n ts) (hid :
   simp only [dotL_unitL, hj, if_true] at e
   rw [e, pairV_single _ _ _ (by rw [sysJ, mulJs_ids]; exact hid), dot_phi, dot_unit]
 
-/-- the rows `calcFrameJ` returns are exactly those vectors -/
-theorem calcFrameJ_rows (ts : List (Tr K)) (n : Nat) (tasks : List (Task K)) :
-    calcFrameJ ts n tasks = tasks.map (fun t => (List.range 6).map
-      (fun i => sysJTflat ts n (single t.body (phi t.r (SV.unit i))))) := rfl
-
 /-- `calcStationJacobian`: entry `(task, i, j)` = component `i` of the station velocity for `u = e_j` -/
 theorem calcStationJ_entry (ts : List (Tr K)) (n : Nat) (hfit : Fitss n ts) (hid : (idss ts).Nodup)
     (t : Task K) (i j : Nat) (hi : i < 3) (hj : j < n) :
@@ -381,12 +369,6 @@ theorem calcStationJ_entry (ts : List (Tr K)) (n : Nat) (hfit : Fitss n ts) (hid
   | 0, _ | 1, _ | 2, _ => simp [SV.toList, V3.toList]
 
 /-! ## 7. the Coriolis term is the time derivative of the velocity step (first-order jets) -/
-theorem Jet.add_re (a b : Jet K) : (a + b).re = a.re + b.re := rfl
-theorem Jet.add_ep (a b : Jet K) : (a + b).ep = a.ep + b.ep := rfl
-theorem Jet.sub_re (a b : Jet K) : (a - b).re = a.re - b.re := rfl
-theorem Jet.sub_ep (a b : Jet K) : (a - b).ep = a.ep - b.ep := rfl
-theorem Jet.mul_re (a b : Jet K) : (a * b).re = a.re * b.re := rfl
-theorem Jet.mul_ep (a b : Jet K) : (a * b).ep = a.re * b.ep + a.ep * b.re := rfl
 theorem mulH_jet : ∀ (H H' : List (SV K)) (u u' : List K), H.length = H'.length → u.length = u'.length →
     SV.ep (mulH (List.zipWith SV.jet H H') (List.zipWith Jet.mk u u')) = SV.add (mulH H u') (mulH H' u) ∧
     SV.re (mulH (List.zipWith SV.jet H H') (List.zipWith Jet.mk u u')) = mulH H u
@@ -441,5 +423,151 @@ theorem velStep_derivative (l vB vP : V3 K) (VP AP : SV K) (H H' : List (SV K)) 
     simp only [SV.add, SV.ep, SV.jet, V3.add, V3.sub, V3.cross, V3.ep, V3.jet, phiT, mobCoriolis,
       Jet.add_ep, Jet.sub_ep, Jet.mul_ep] <;>
     ring
+
+/-! ## 8. tree level: the acceleration recursion with the C++ Coriolis increments is d/dt of `J u` along the motion -/
+mutual
+/-- the tree as a first-order jet along the motion generated by `u`: every `p_PB_G` moves with `v_B − v_P` (velocities from
+the model's own `J u` recursion), every hinge column with the supplied `HDot` columns (`Hd id`) -/
+def liftT (u : List K) (Hd : Nat → List (SV K)) : Tr K → SV K → Tr (Jet K)
+  | .node b cs, Vp =>
+    let V := SV.add (phiT b.l Vp) (mulH b.H (u.drop b.u0))
+    .node ⟨b.id, b.u0, V3.jet b.l (V3.sub V.v Vp.v), List.zipWith SV.jet b.H (Hd b.id), []⟩ (liftTs u Hd cs V)
+def liftTs (u : List K) (Hd : Nat → List (SV K)) : List (Tr K) → SV K → List (Tr (Jet K))
+  | [], _ => []
+  | c :: cs, V => liftT u Hd c V :: liftTs u Hd cs V
+end
+
+mutual
+/-- `calcBodyAccelerationsFromUdotOutward` with the Coriolis increment *computed* the way
+`calcJointIndependentKinematicsVel` does: `a = ((HDot u).w, (HDot u).v + ω_P × (v_B − v_P))` -/
+def accD (u ud : List K) (Hd : Nat → List (SV K)) : Tr K → SV K → SV K → BodyVals K
+  | .node b cs, Vp, Ap =>
+    let V := SV.add (phiT b.l Vp) (mulH b.H (u.drop b.u0))
+    let A := SV.add (SV.add (phiT b.l Ap) (mulH b.H (ud.drop b.u0)))
+                    (mobCoriolis (mulH (Hd b.id) (u.drop b.u0)) Vp.w V.v Vp.v)
+    (b.id, A) :: accDs u ud Hd cs V A
+def accDs (u ud : List K) (Hd : Nat → List (SV K)) : List (Tr K) → SV K → SV K → BodyVals K
+  | [], _, _ => []
+  | c :: cs, V, A => accD u ud Hd c V A ++ accDs u ud Hd cs V A
+end
+
+/-- pair values with their time derivatives -/
+def jetVals (X Y : BodyVals K) : List (Nat × SV (Jet K)) :=
+  List.zipWith (fun a b => (a.1, SV.jet a.2 b.2)) X Y
+
+theorem SV.jet_of_parts (X : SV (Jet K)) (V A : SV K) (h1 : SV.re X = V) (h2 : SV.ep X = A) : X = SV.jet V A := by
+  subst h1; subst h2
+  rcases X with ⟨⟨⟨a, a'⟩, ⟨b, b'⟩, ⟨c, c'⟩⟩, ⟨⟨d, d'⟩, ⟨e, e'⟩, ⟨f, f'⟩⟩⟩
+  rfl
+
+theorem phiT_jet_re (l l' : V3 K) (V A : SV K) : SV.re (phiT (V3.jet l l') (SV.jet V A)) = phiT l V := by
+  apply SV.ext' <;> apply V3.ext' <;>
+    simp only [SV.re, SV.jet, V3.re, V3.jet, phiT, V3.add, V3.cross, Jet.add_re, Jet.sub_re, Jet.mul_re]
+
+/-- one node of the jet recursion produces exactly (velocity, acceleration) of the two real recursions -/
+theorem node_jet (b : Bd K) (Hd : List (SV K)) (u ud : List K) (Vp Ap : SV K)
+    (hH : b.H.length = Hd.length) (hu : u.length = ud.length) :
+    SV.add (phiT (V3.jet b.l (V3.sub (SV.add (phiT b.l Vp) (mulH b.H (u.drop b.u0))).v Vp.v)) (SV.jet Vp Ap))
+           (mulH (List.zipWith SV.jet b.H Hd) ((List.zipWith Jet.mk u ud).drop b.u0))
+      = SV.jet (SV.add (phiT b.l Vp) (mulH b.H (u.drop b.u0)))
+               (SV.add (SV.add (phiT b.l Ap) (mulH b.H (ud.drop b.u0)))
+                  (mobCoriolis (mulH Hd (u.drop b.u0)) Vp.w (SV.add (phiT b.l Vp) (mulH b.H (u.drop b.u0))).v Vp.v)) := by
+  have hd : (u.drop b.u0).length = (ud.drop b.u0).length := by simp [hu]
+  rw [List.drop_zipWith]
+  apply SV.jet_of_parts
+  · have h2 := (mulH_jet b.H Hd (u.drop b.u0) (ud.drop b.u0) hH hd).2
+    have : SV.re (SV.add (phiT (V3.jet b.l (V3.sub (SV.add (phiT b.l Vp) (mulH b.H (u.drop b.u0))).v Vp.v)) (SV.jet Vp Ap))
+              (mulH (List.zipWith SV.jet b.H Hd) (List.zipWith Jet.mk (u.drop b.u0) (ud.drop b.u0))))
+        = SV.add (SV.re (phiT (V3.jet b.l (V3.sub (SV.add (phiT b.l Vp) (mulH b.H (u.drop b.u0))).v Vp.v)) (SV.jet Vp Ap)))
+                 (SV.re (mulH (List.zipWith SV.jet b.H Hd) (List.zipWith Jet.mk (u.drop b.u0) (ud.drop b.u0)))) := rfl
+    rw [this, h2, phiT_jet_re]
+  · exact velStep_derivative b.l _ Vp.v Vp Ap b.H Hd (u.drop b.u0) (ud.drop b.u0) hH hd rfl
+
+mutual
+theorem jet_recursion_subtree (u ud : List K) (Hd : Nat → List (SV K)) (hu : u.length = ud.length) :
+    ∀ (t : Tr K), AllB (fun b => b.H.length = (Hd b.id).length) t → ∀ (Vp Ap : SV K),
+    mulJ (List.zipWith Jet.mk u ud) (liftT u Hd t Vp) (SV.jet Vp Ap) = jetVals (mulJ u t Vp) (accD u ud Hd t Vp Ap)
+  | .node b cs, h, Vp, Ap => by
+      cases h with
+      | mk _ _ hb hcs =>
+        simp only [liftT, mulJ, accD, jetVals, List.zipWith_cons_cons]
+        rw [node_jet b (Hd b.id) u ud Vp Ap hb hu, jet_recursion_kids u ud Hd hu cs hcs]
+        rfl
+theorem jet_recursion_kids (u ud : List K) (Hd : Nat → List (SV K)) (hu : u.length = ud.length) :
+    ∀ (cs : List (Tr K)), (∀ c ∈ cs, AllB (fun b => b.H.length = (Hd b.id).length) c) → ∀ (V A : SV K),
+    mulJs (List.zipWith Jet.mk u ud) (liftTs u Hd cs V) (SV.jet V A) = jetVals (mulJs u cs V) (accDs u ud Hd cs V A)
+  | [], _, V, A => by simp [liftTs, mulJs, accDs, jetVals]
+  | c :: cs, h, V, A => by
+      have hlen : (mulJ u c V).length = (accD u ud Hd c V A).length := by
+        have h1 := congrArg List.length (mulJ_ids u c V)
+        have h2 := congrArg List.length (accD_ids u ud Hd c V A)
+        simp only [List.length_map] at h1 h2
+        rw [h1, h2]
+      simp only [liftTs, mulJs, accDs, jetVals]
+      rw [List.zipWith_append hlen, ← jetVals, ← jetVals,
+          jet_recursion_subtree u ud Hd hu c (h c (by simp)) V A,
+          jet_recursion_kids u ud Hd hu cs (fun c' hc' => h c' (by simp [hc'])) V A]
+theorem accD_ids (u ud : List K) (Hd : Nat → List (SV K)) : ∀ (t : Tr K) (Vp Ap : SV K),
+    (accD u ud Hd t Vp Ap).map Prod.fst = ids t
+  | .node b cs, Vp, Ap => by simp [accD, ids, accDs_ids u ud Hd cs]
+theorem accDs_ids (u ud : List K) (Hd : Nat → List (SV K)) : ∀ (cs : List (Tr K)) (V A : SV K),
+    (accDs u ud Hd cs V A).map Prod.fst = idss cs
+  | [], V, A => by simp [accDs, idss]
+  | c :: cs, V, A => by simp [accDs, idss, accD_ids u ud Hd c, accDs_ids u ud Hd cs]
+end
+
+/-- **Tree-level `A = d/dt (J u)`.**  Run the *same* operator `sysJ` on the jet of the tree along its own motion
+(`p_PB_G` moving with `v_B − v_P`, `H` with `HDot`, `u` with `udot`): the value parts are `J u` and the derivative parts are
+the acceleration recursion with the Coriolis increments the C++ forms.  With `udot = 0` this says that what
+`calcBiasForSystemJacobian` returns is `Jdot · u`, provided the `HDot` columns are the derivatives of the `H` columns. -/
+theorem sysJ_time_derivative (ts : List (Tr K)) (u ud : List K) (Hd : Nat → List (SV K)) (hu : u.length = ud.length)
+    (hH : ∀ c ∈ ts, AllB (fun b => b.H.length = (Hd b.id).length) c) :
+    sysJ (liftTs u Hd ts SV.zero) (List.zipWith Jet.mk u ud)
+      = jetVals (sysJ ts u) (accDs u ud Hd ts SV.zero SV.zero) := by
+  have h := jet_recursion_kids u ud Hd hu ts hH SV.zero SV.zero
+  have z : (SV.jet (SV.zero : SV K) SV.zero) = (SV.zero : SV (Jet K)) := rfl
+  rw [z] at h
+  exact h
+
+example : AllB (fun b => b.H.length = ((fun _ => [(⟨⟨0, 1, 0⟩, ⟨0, 0, 2⟩⟩ : SV Int)]) b.id).length)
+    (Tr.node ⟨1, 0, ⟨1, 0, 2⟩, [⟨⟨0, 0, 1⟩, ⟨0, 3, 0⟩⟩], []⟩ []) :=
+  AllB.mk _ _ rfl (by simp)
+
+mutual
+/-- the per-mobilizer increments the recursion computes, tagged by body (what `getMobilizerCoriolisAcceleration` exports) -/
+def corList (u : List K) (Hd : Nat → List (SV K)) : Tr K → SV K → BodyVals K
+  | .node b cs, Vp =>
+    let V := SV.add (phiT b.l Vp) (mulH b.H (u.drop b.u0))
+    (b.id, mobCoriolis (mulH (Hd b.id) (u.drop b.u0)) Vp.w V.v Vp.v) :: corLists u Hd cs V
+def corLists (u : List K) (Hd : Nat → List (SV K)) : List (Tr K) → SV K → BodyVals K
+  | [], _ => []
+  | c :: cs, V => corList u Hd c V ++ corLists u Hd cs V
+end
+
+mutual
+theorem accD_eq_acc_subtree (u ud : List K) (Hd : Nat → List (SV K)) (a : Nat → SV K) : ∀ (t : Tr K) (Vp Ap : SV K),
+    (∀ x ∈ corList u Hd t Vp, a x.1 = x.2) → accD u ud Hd t Vp Ap = acc a ud t Ap
+  | .node b cs, Vp, Ap, h => by
+      have hb : a b.id = mobCoriolis (mulH (Hd b.id) (u.drop b.u0)) Vp.w
+          (SV.add (phiT b.l Vp) (mulH b.H (u.drop b.u0))).v Vp.v :=
+        h (b.id, mobCoriolis (mulH (Hd b.id) (u.drop b.u0)) Vp.w
+          (SV.add (phiT b.l Vp) (mulH b.H (u.drop b.u0))).v Vp.v) (by simp [corList])
+      simp only [accD, acc, hb]
+      rw [accDs_eq_acc_kids u ud Hd a cs _ _ (fun x hx => h x (by simp [corList, hx]))]
+theorem accDs_eq_acc_kids (u ud : List K) (Hd : Nat → List (SV K)) (a : Nat → SV K) : ∀ (cs : List (Tr K)) (V A : SV K),
+    (∀ x ∈ corLists u Hd cs V, a x.1 = x.2) → accDs u ud Hd cs V A = accs a ud cs A
+  | [], _, _, _ => by simp [accDs, accs]
+  | c :: cs, V, A, h => by
+      simp only [accDs, accs]
+      rw [accD_eq_acc_subtree u ud Hd a c V A (fun x hx => h x (by simp [corLists, hx])),
+          accDs_eq_acc_kids u ud Hd a cs V A (fun x hx => h x (by simp [corLists, hx]))]
+end
+
+/-- If the exported increments `a` are the ones the recursion computes, the executed `sysAcc` (and, for `udot = 0`,
+`sysBias`) is that derivative: together with `sysJ_time_derivative`, `bias = Jdot u` on the whole tree. -/
+theorem sysAcc_is_derivative (ts : List (Tr K)) (u ud : List K) (Hd : Nat → List (SV K)) (a : Nat → SV K)
+    (ha : ∀ x ∈ corLists u Hd ts SV.zero, a x.1 = x.2) :
+    accDs u ud Hd ts SV.zero SV.zero = sysAcc ts a ud :=
+  accDs_eq_acc_kids u ud Hd a ts SV.zero SV.zero ha
 
 end C04
